@@ -18,6 +18,7 @@ RULE = (
     "x {strict, lenient} x {setattr, constructor keyword}, each shard after a different prelude (nothing / successful loads / failed loads / a load failing inside a nested load); (b) Hypothesis: random assignment histories on one module "
     "(previous values vary; steps include an out-of-range value stored under lenient mode - what a load does - and strict re-assignment of whatever the controller currently holds, which must be refused when that value is out of range). distinct = (type, controller, unit, value, mode, path) tuple / history hash; non-trivial = value "
     "at or one beyond a bound, invalid enum input, or assignment over a non-default previous value"
+    ' Also (added while the seeded-change rounds of DESIGN section 9 ran): Also: modules carrying tricky names and sitting in projects, change hooks that assign a sibling controller, and the stock classes after a program derived its own subclasses.'
 )
 ASSUMPTIONS = [
     "YAML min/max/default/enum tables are the declared domains",
